@@ -377,6 +377,13 @@ func checkReply(m Msg, rep reply, latest map[string]string, spans map[string][]g
 			res.Probes["non_null_"+m.Kind]++
 		}
 		return nil
+	case "close":
+		// not part of the statement: the server may ignore it; it must not crash or publish anything
+		if rep.crashed {
+			return viol("crash-consistency", "history-dependent-crash", "didClose crashed the server: "+rep.panicV)
+		}
+		res.Probes["close_then_reopen_with_version_1"]++
+		return nil
 	case "init":
 		if rep.crashed {
 			return viol("crash-consistency", "history-dependent-crash", "initialize crashed: "+rep.panicV)
